@@ -112,7 +112,7 @@ CLAIMED.update({
         text='Panic-freedom sweep of the whole analysis package (check.go, hover.go, goto_definition.go, document_symbols.go) for every tree of the editor shape: '
              'every child may be missing, lists may hold nil entries, declarations may lack a name or an origin. Every nil dereference, nil-interface call, index, type switch default and nil-map write on every path '
              'is an obligation; the checker state (all maps exist, registered declarations have a name and a type, resolutions are of the two known kinds) is an invariant of every function; the scope flags '
-             'of capped sources are restored on exit; the message of every diagnostic kind is declared deterministic (a range over a map below it is a failed obligation).',
+             'of capped sources are restored on exit; RatioLiteral.ToRatio, which the allotment checks call, is proved exact and panic-free for every non-zero denominator; the message of every diagnostic kind is declared deterministic (a range over a map below it is a failed obligation).',
         note='ASSUMED (listed in the trusted base of each run): Parse yields a tree of the editor shape - no interface field holds a nil pointer, and six children the analysis dereferences without a guard are present '
              '(call name, declaration type, expression of an account source/destination, address of an overdraft source) - a fact about ANTLR error recovery (T3), backed by a 6000-input differential probe during development, not proved. '
              'Termination, diagnostic ranges lying inside the document, and determinism (map iteration order of the unused-variable loop) are not decided by these contracts.',
@@ -125,15 +125,15 @@ CLAIMED.update({
              'updateDocument has a whole-view postcondition (the named document gets the new text and its analysis, every other document is unchanged); Handle: didOpen stores the text it carries, didChange stores the LAST content change, '
              'every other request changes no document; hover / definition / symbols modify nothing, answer nil for an unknown document, and definition answers with the URI that was asked; '
              'navigation, as far as stated: hoverOnExpression returns exactly the variable whose range holds the cursor (and nothing for other leaves), an account source and the first member of an in-order source give their variable under the cursor, '
-             'the checker resolves every declared variable it visits (also the portion variable of a destination share) and never forgets a resolution.',
+             'the checker resolves every declared variable it visits (also the portion variable of a destination share and of a source share) and never forgets a resolution (checkSource and checkDestination keep earlier resolutions).',
         note='"the analysis of a text" is the relation analysed(result, text) defined by the (assumed, definitional) postcondition of analysis.CheckSource; determinism of the analysis is not proved. '
              'The content of hover texts and navigation through every nesting (all members of a block, destinations, function arguments) are NOT proved. JSON decoding of the request is an arbitrary value of the parameter type. '
              'Interleavings do not arise: the server handles one request at a time.',
         ref='DESIGN.md section 5 C19'),
     'C20': dict(
         text='Deductive proof of the exit behaviour of the two commands: every os.Exit in internal/cmd carries a non-zero status; `check` returns normally only when the number of error-severity diagnostics it obtained from GetErrorsCount on the analysed file is zero; '
-             '`run` returns normally only when parsing produced no error and RunProgram returned no error (every failure path ends in os.Exit); the JSON encoders of values use only the library renderings their String() methods use (closed `calls` list).',
-        note='Not proved: what is printed (diagnostic lines, JSON rendering - encoding/json and fmt are outside the model), the equivalence of the three input channels (the readers are trusted contracts that only frame which option fields they set), '
+             '`run` returns normally only when parsing produced no error and RunProgram returned no error (every failure path ends in os.Exit); in the printing loop of `check` the operands of the diagnostic line are the path, the START line and character of that diagnostic and its severity label (loop step assertion over the operands of fmt.Printf); the JSON encoders of values use only the library renderings their String() methods use (closed `calls` list).',
+        note='Not proved: what is printed beyond the operands handed to fmt.Printf in `check` (formatting itself, message texts, JSON rendering - encoding/json and fmt are outside the model), the equivalence of the three input channels (the readers are trusted contracts that only frame which option fields they set), '
              'the exact value of the error count beyond zero / non-zero; that the in-place sort of the diagnostics keeps the same diagnostics (sort.Slice is modelled as an arbitrary rearrangement).',
         ref='DESIGN.md section 5 C20'),
 })
@@ -150,7 +150,7 @@ CLAIMED.update({
         ref='DESIGN.md section 5 C16'),
     'C17': dict(
         text='Deductive proof of the clauses on both sides that the property connects, each for all inputs: (checker) an undeclared variable in any expression position is reported, also as the account of a source that follows an unbounded one; '
-             '(interpreter) parseVar maps the six declared types to values of exactly those kinds and rejects every other type name with InvalidTypeErr, send-all rejects unbounded and allotment sources with the typed errors the checker announces, '
+             'a declared type is accepted exactly when it is one of the six type names (isTypeAllowed, proved over the content of AllowedTypes read from the package initialiser); (interpreter) parseVar maps the six declared types to values of exactly those kinds and rejects every other type name with InvalidTypeErr, send-all rejects unbounded and allotment sources with the typed errors the checker announces, '
              'run-time failures are of the typed kinds only (clauses shared with C12).',
         note='NOT decided: the implication itself (clean check => no static-class failure at run time) for whole programs. It is a relational property of two recursive traversals; it would need one typing judgment proved sound against evaluateExpr and complete against checkExpression. '
              'The clauses above are the per-function facts such a proof would use; the composition is an argument in DESIGN.md.',
